@@ -1,4 +1,6 @@
 import QuickAdd.Lemmas.SearchSound
+import QuickAdd.Lemmas.SearchComplete
+import QuickAdd.Props.C18
 /-!
 # C15 — the search yields only what the rules license (soundness), for every ordering policy
 
@@ -12,9 +14,16 @@ and the trace grows by exactly that rule's name.
 `args_unchanged`: a rule application returns new values; the argument list of the model is immutable, so "applying a
 rule never alters the values it was applied to" is checked where it can fail — on the real code, by argument snapshots
 around every rule call (`rules` correspondence and the sweep).
-Partial (named): *completeness* (every fully reduced derivation's result is streamed without depth limit) is established
-on the real code against an independent brute-force closure by the sweep, and for the model by the `search`
-correspondence; the abstract completeness proof of the design (appendix C.5b) is not yet connected to the concrete loop.
+`search_complete_partial`: **completeness of the concrete loop** — without depth limit and deadline, if the search ends
+without exception then every value of every reachable production that no rule reduces further compares equal (Python `==`)
+to a streamed candidate, for **every scorer** (ordering, both dedup tables and the emission gate are score dependent; the
+proof is an invariant over the worklist: successors of closed elements and table keys are value-equal to something open or
+closed).  It is named *partial* because it keeps one hypothesis about the rule base that is not proved: `ExpandRespects` —
+two *reachable* productions that compare equal have pairwise equal successors although they may have inherited different
+pre-filtered rule sets (the "rule pre-filter must not lose rules" clause).  `keyEq_equivalence` discharges the other
+hypothesis (`==` of production elements is an equivalence that never identifies a value with a pattern match) from the
+generated attribute lists.  The hypothesis is decided on the real code by the sweep (independent brute-force closure over
+the *unfiltered* rule base vs the streamed set, several scorers) and for the model by the `search` correspondence.
 -/
 namespace QuickAdd.C15
 open QuickAdd Gen
@@ -122,5 +131,62 @@ theorem expand_sound (ts : Ts) (rules : List (String × List Pred)) (prod : List
     · simp at h2
     · obtain ⟨x, hx, e⟩ := applyAt_sound ts r.1 r.2 prod trace i s hg
       exact ⟨r, hr, i, hi, x, hx, e⟩
+
+/-! ## completeness -/
+
+/-- `==` on production elements of the concrete configuration is an equivalence and separates values from pattern matches -/
+theorem keyEq_equivalence (sc : Scorer S) (ts : Ts) (d : Nat) (txt : List Nat) : EqvK (mkCfg sc ts d txt) :=
+  ⟨C18.pyEq_refl, C18.pyEq_symm, C18.pyEq_trans, C18.pyEq_isVal⟩
+
+/-- completeness of the stream, for every scorer; hypothesis `hER` is the unproved part (see the header) -/
+theorem search_complete_partial (sc : Scorer S) (ts : Ts) (o : Opts) (txt : List Nat) (fuel : Nat)
+    (hd : o.depth = 0) (hdl : o.deadline = none)
+    (hER : ExpandRespects (mkCfg sc ts o.depth txt) (initialStack sc o.depth o.relMatchLenNum o.relMatchLenDen txt fuel).1)
+    (hclean : (searchCore sc ts o txt fuel).1.2 = none) :
+    let st := (initialStack sc o.depth o.relMatchLenNum o.relMatchLenDen txt fuel).1
+    ∀ p t rules, ReachE (mkCfg sc ts o.depth txt) st p t rules → succOf (mkCfg sc ts o.depth txt) rules p t = [] →
+      ∀ x ∈ p, x.isVal = true → ∃ c ∈ (searchCore sc ts o txt fuel).1.1, x.pyEq c.res = true := by
+  intro st p t rules hr hnil x hx hxv
+  have hexp : ∀ n, expiredAt none n = false := fun _ => rfl
+  simp only [searchCore, hdl, hexp, Bool.false_eq_true, if_false, Option.map_none] at hclean ⊢
+  obtain ⟨ou, hou, he⟩ := complete_stream (mkCfg sc ts o.depth txt) (by simpa [mkCfg] using hd) (keyEq_equivalence sc ts o.depth txt)
+    fuel st hER _ (Prod.ext rfl hclean) p t rules hr hnil x hx hxv
+  exact ⟨toCand ou, List.mem_map.mpr ⟨ou, hou, rfl⟩, he⟩
+
+/-- non-vacuity of the abstract theorem: a configuration (count-down productions over `Nat`, every element a value) that
+    satisfies all hypotheses of `complete_stream`, with a clean run that streams the fully reduced production -/
+def toyCfg : Cfg Nat Nat :=
+  { lt := fun a b => decide (a < b)
+    expand := fun _ p t => .ok (match p with | [n+1] => [([n], t ++ ["dec"], 1)] | _ => [])
+    scorer := fun _ _ _ => 0
+    final := fun _ _ _ => 0
+    isVal := fun _ => true
+    keyEq := fun a b => a == b
+    depth := 0 }
+
+def toyInit : List (E Nat Nat) := [{ prod := [3], trace := [], cov := 1, score := 0, rules := [] }]
+
+theorem toy_req (p q : List Nat) : Req toyCfg p q ↔ p = q := by
+  unfold Req
+  induction p generalizing q with
+  | nil => cases q <;> simp [listEqBy]
+  | cons a as ih => cases q with
+    | nil => simp [listEqBy]
+    | cons b bs => simp [listEqBy, toyCfg, ih] ; exact fun _ => ih bs
+
+example : EqvK toyCfg ∧ ExpandRespects toyCfg toyInit ∧
+    run toyCfg 10 none toyInit [] [] = ([(0, ["dec", "dec", "dec"], 0)], none) := by
+  refine ⟨⟨by simp [toyCfg], by simp [toyCfg], by simp [toyCfg], by simp [toyCfg]⟩, ?_, by decide⟩
+  intro r1 p1 t1 r2 p2 t2 _ _ hreq n hn
+  have : p1 = p2 := (toy_req p1 p2).mp hreq
+  subst this
+  simp only [succOf, toyCfg, List.mem_map] at hn ⊢
+  obtain ⟨a, ha, rfl⟩ := hn
+  rcases p1 with _ | ⟨k, _ | ⟨_, _⟩⟩
+  · simp at ha
+  · cases k with
+    | zero => simp at ha
+    | succ k => simp at ha; subst ha; exact ⟨[k], ⟨([k], t2 ++ ["dec"], 1), by simp, rfl⟩, (toy_req _ _).mpr rfl⟩
+  · simp at ha
 
 end QuickAdd.C15
